@@ -175,23 +175,44 @@ def parse(repo):
     if dflt != "false":
         raise ValueError("AddToFlatten: default right_boundary changed to %s" % dflt)
 
+    errors = []
     # Flatten::Apply: how far the index advances after copying an untouched code point
-    apply_src = src[src.index("void Flatten::Apply(const UnicodeString &in, UnicodeString &out) const"):]
-    apply_src = apply_src[:apply_src.index("void Flatten::Apply(const StringPiece")]
-    m = need(r"\}\s*else\s*\{\s*out\.append\s*\(\s*character\s*\)\s*;\s*(\+\+i|i\s*\+=\s*U16_LENGTH\s*\(\s*character\s*\))\s*;\s*\}", apply_src, "Flatten::Apply copy branch")
-    copy_adv = "true" if "U16_LENGTH" in m.group(1) else "false"
+    copy_adv = None
+    try:
+        apply_src = src[src.index("void Flatten::Apply(const UnicodeString &"):]
+        apply_src = apply_src[:apply_src.index("void Flatten::Apply(const StringPiece")]
+        m = need(r"\}\s*else\s*\{\s*(\w+)\.append\s*\(\s*(\w+)\s*\)\s*;\s*(\+\+\s*(\w+)|(\w+)\s*\+=\s*U16_LENGTH\s*\(\s*(\w+)\s*\))\s*;\s*\}", apply_src, "Flatten::Apply copy branch")
+        if m.group(5) and m.group(6) != m.group(2):
+            raise ValueError("Flatten::Apply copy branch: U16_LENGTH of something else than the copied character")
+        copy_adv = "true" if m.group(5) else "false"
+    except ValueError as e:
+        errors.append(str(e))
 
-    main = strip_comments(open(os.path.join(repo, "preprocess", "process_unicode_main.cc")).read())
-    pr = need(r"std::cout\s*<<\s*\*\s*(\w+)\s*<<\s*'\\n'\s*;", main, "the print statement of process_unicode").group(1)
-    if pr not in ("str", "cur"):
-        raise ValueError("process_unicode prints *%s: not understood" % pr)
-    dlang = need(r"\(\s*\"language,l\"\s*,\s*po::value\s*\(\s*&out\.language\s*\)\s*->\s*default_value\s*\(\s*\"(\w+)\"\s*\)", main, "default language").group(1)
+    pr = None
+    dlang = None
+    try:
+        main = strip_comments(open(os.path.join(repo, "preprocess", "process_unicode_main.cc")).read())
+        arr = need(r"UnicodeString\s+(\w+)\s*\[\s*2\s*\]\s*;", main, "the two buffers").group(1)
+        pm = need(r"UnicodeString\s*\*\s*(\w+)\s*=\s*&\s*%s\s*\[\s*0\s*\]\s*,\s*\*\s*(\w+)\s*=\s*&\s*%s\s*\[\s*1\s*\]\s*;" % (arr, arr), main, "cur/tmp pointers")
+        printed = need(r"std::cout\s*<<\s*\*\s*(\w+)\s*<<\s*'\\n'\s*;", main, "the print statement of process_unicode").group(1)
+        if printed == arr:
+            pr = "str"
+        elif printed == pm.group(1):
+            pr = "cur"
+        else:
+            raise ValueError("process_unicode prints *%s: neither the buffer array nor the current pointer" % printed)
+        dlang = need(r"\(\s*\"language,l\"\s*,\s*po::value\s*\(\s*&\s*\w+\.language\s*\)\s*->\s*default_value\s*\(\s*\"(\w+)\"\s*\)", main, "default language").group(1)
+    except ValueError as e:
+        errors.append(str(e))
 
-    return {"tables": tables, "order": order, "langvar": langvar, "ops": ops, "copy_adv": copy_adv, "prints": pr, "default_language": dlang}
+    return {"tables": tables, "order": order, "langvar": langvar, "ops": ops, "copy_adv": copy_adv, "prints": pr,
+            "default_language": dlang or "en", "errors": errors}
 
 
 def generate(repo):
     P = parse(repo)
+    if P["errors"]:
+        raise ValueError("; ".join(P["errors"]))
     tables, order, langvar, ops, copy_adv, pr, dlang = (P["tables"], P["order"], P["langvar"], P["ops"], P["copy_adv"], P["prints"], P["default_language"])
     L = ["(* GENERATED by tools/gen/g_flatten.py from util/utf8_icu.cc and preprocess/process_unicode_main.cc -- do not edit *)",
          "From Coq Require Import List ZArith.", "Import ListNotations.", "Local Open Scope Z_scope.", "",
